@@ -38,9 +38,10 @@ Proof.
   destruct (skip_to_no_check (fuel_for (go_drop ref p)) tag req (go_drop ref p)) as [t rest|rest| |]; cbn [seek_sim] in SK; try exact I.
   - destruct SK as (q & -> & Er & Hq & Ht). cbn [go_call bindc Bool.eqb negb].
     destruct (t =? ty)%N eqn:E.
-    + replace (Z.of_N ty =? Z.of_N t) with true by lia. cbn [negb bindc]. exists q. repeat split; [exact Er|lia|lia].
-    + replace (Z.of_N ty =? Z.of_N t) with false by lia. cbn [negb bindc]. exists q. reflexivity.
-  - destruct SK as (q & t & -> & Er & Hq). cbn [go_call bindc Bool.eqb negb]. exists q. repeat split; [exact Er|lia|lia].
+    + decide_conds. cbn [negb bindc]. exists q. repeat split; [exact Er|lia|lia].
+    + decide_conds. cbn [negb bindc]. exists q. reflexivity.
+  - destruct SK as (q & t & -> & Er & Hq). cbn [go_call bindc Bool.eqb negb]. exists q.
+    split; [destruct (Z.of_N ty =? t); cbn [negb bindc]; reflexivity|]. repeat split; [exact Er|lia|lia].
   - destruct SK as (q & t & -> & Hq). cbn [go_call bindc Bool.eqb negb]. exists q. reflexivity.
 Qed.
 
